@@ -251,3 +251,77 @@ func IP4Header(src, dst []byte, proto uint8, payloadLen int) []byte {
 	p = append(p, dst...)
 	return p
 }
+
+// ---- independent well-formedness checker for emitted probes (C06) ----
+
+func fold(sum uint32) uint32 {
+	sum = (sum >> 16) + (sum & 0xffff)
+	sum = (sum >> 16) + (sum & 0xffff)
+	return sum
+}
+
+// Sum16 adds b (even or odd length) as big-endian 16-bit words to sum.
+func Sum16(sum uint32, b []byte) uint32 {
+	for i := 0; i+1 < len(b); i += 2 {
+		sum += uint32(b[i]) << 8
+		sum += uint32(b[i+1])
+	}
+	if len(b)%2 == 1 {
+		sum += uint32(b[len(b)-1]) << 8
+	}
+	return sum
+}
+
+// CsumIs: the stored checksum equals the one's complement of the folded one's-complement sum of everything else
+// covered (RFC 1071). Stating it this way keeps the obligation a comparison of two sums of the same bytes, which
+// the engine's order-independent normal form for sums decides without bit-blasting a 40-byte adder chain.
+func CsumIs(stored uint16, sumOfOthers uint32) bool { return stored == ^uint16(fold(sumOfOthers)) }
+
+// WellFormed4 checks an emitted IPv4 probe: version/IHL, total length, TTL byte, protocol, addresses, header checksum.
+func WellFormed4(p []byte, ttl uint8, proto uint8, src, dst []byte) bool {
+	if len(p) < 20 {
+		return false
+	}
+	return V.All(p[0] == 0x45, int(BE16(p[2:4])) == len(p), p[8] == ttl, p[9] == proto,
+		V.BytesEq(p[12:16], src), V.BytesEq(p[16:20], dst),
+		CsumIs(BE16(p[10:12]), Sum16(Sum16(0, p[0:10]), p[12:20])))
+}
+
+// L4CsumOK4 verifies a TCP/UDP/ICMP checksum of an IPv4 packet (pseudo-header included unless ICMP).
+func L4CsumOK4(p []byte) bool {
+	seg := p[20:]
+	co := 16 // offset of the checksum field inside the segment: TCP 16, UDP 6, ICMP 2
+	switch p[9] {
+	case 1:
+		return CsumIs(BE16(seg[2:4]), Sum16(Sum16(0, seg[:2]), seg[4:]))
+	case 17:
+		co = 6
+	}
+	sum := Sum16(0, p[12:20])
+	sum += uint32(p[9]) + uint32(len(seg))
+	return CsumIs(BE16(seg[co:co+2]), Sum16(Sum16(sum, seg[:co]), seg[co+2:]))
+}
+
+// WellFormed6 checks an emitted IPv6 probe: version, payload length, hop limit, next header, addresses.
+func WellFormed6(p []byte, ttl uint8, next uint8, src, dst []byte) bool {
+	if len(p) < 40 {
+		return false
+	}
+	return V.All(p[0]>>4 == 6, int(BE16(p[4:6])) == len(p)-40, p[7] == ttl, p[6] == next,
+		V.BytesEq(p[8:24], src), V.BytesEq(p[24:40], dst))
+}
+
+// L4CsumOK6 verifies an upper-layer checksum of an IPv6 packet without extension headers.
+func L4CsumOK6(p []byte) bool {
+	seg := p[40:]
+	co := 16
+	switch p[6] {
+	case 58:
+		co = 2
+	case 17:
+		co = 6
+	}
+	sum := Sum16(0, p[8:40])
+	sum += uint32(p[6]) + uint32(len(seg))
+	return CsumIs(BE16(seg[co:co+2]), Sum16(Sum16(sum, seg[:co]), seg[co+2:]))
+}
